@@ -1,7 +1,9 @@
 /* C05 correspondence harness: the real qmail-smtpd.c blast() (DATA decoder + hop counter) over the real substdio / saferead.
  * usage: c05_blast <maxlen> <nrandom> <seed> <shard> <nshards>     |  c05_blast -   (cases "<plan> <hex>" on stdin)
- * output per case: <plan> <input-hex> <A|S|E|T> <stored-hex> <consumed> <hops> <ssin.p> <ssin.n> <nreads>
+ * output per case: <plan> <input-hex> <A|S|E|T> <stored-hex> <consumed> <hops> <ssin.p> <ssin.n> <nreads> <delivered>
  *   A = blast returned (terminator seen), S = straynewline (451), E = die_read (end of input or failing read), T = other exit
+ *   nreads = read() calls made (the failing one included), delivered = bytes of the stream those calls had returned when the
+ *   case ended (for E: what the program had been given when it gave up - it only reads when its buffer is empty)
  * <plan> (one token) says how the stream is cut into read()s: comma-separated caps used cyclically, one per read() call
  *   (0 = no cap, e = this read fails with EIO), optionally followed by @k: the first k bytes of the stream are consumed
  *   through substdio_get(&ssin,buf,<=k) before blast() is called (so blast() starts with bytes already buffered, as after
@@ -120,8 +122,8 @@ static void onep(const unsigned char *m, size_t n, const char *tok) {
   in_case = 0;
   long consumed = (long)in_pos - ssin.p - plan_skip;
   fprintf(h_out, "%s ", tok); h_hex(m, n); fprintf(h_out, " %c ", st); h_hex(stored.p, stored.n);
-  fprintf(h_out, " %ld %d %d %d %ld\n", st == 'A' ? consumed : -1, st == 'A' ? hops : -1,
-          st == 'A' ? ssin.p : -1, st == 'A' ? (int)ssin.n : -1, in_reads);
+  fprintf(h_out, " %ld %d %d %d %ld %ld\n", st == 'A' ? consumed : -1, st == 'A' ? hops : -1,
+          st == 'A' ? ssin.p : -1, st == 'A' ? (int)ssin.n : -1, in_reads, (long)in_pos);
 }
 static void one(const unsigned char *m, size_t n, int chunk) { char t[24]; snprintf(t, sizeof t, "%d", chunk); onep(m, n, t); }
 
@@ -166,6 +168,12 @@ int main(int argc, char **argv) {
         one(m, len, 1); one(m, len, 2);
         memcpy(m + len, "\r\n.\r\nQUIT\r\n", 11);
         one(m, len + 11, 0); one(m, len + 11, 1);
+        /* a failing read() after j one-byte reads, for every j up to just past the terminator, and after one / two
+         * larger reads: the session may die there (E) only if the decoder has no verdict yet on the bytes delivered */
+        if (len + 4 <= maxlen) {
+          for (int j = 0; j <= len + 6; j++) { char t[80]; int o = 0; for (int q = 0; q < j; q++) o += snprintf(t + o, sizeof t - o, "1,"); snprintf(t + o, sizeof t - o, "e"); onep(m, len + 11, t); }
+          onep(m, len + 11, "3,e"); onep(m, len + 11, "4,2,e"); onep(m, len + 11, "0,e"); onep(m, len + 11, "2,e@1");
+        }
       }
     }
   }
